@@ -55,6 +55,10 @@ CHECKS = {
    text="Same chop and ledger models as C01 (right-to-left processing order); every nested behaviour is realised as a TT with exactly the model's spectra, stored with ranks inflated through non-orthogonal gauges and cores rescaled by 1e4/1e-4 (also complex, operator, float32), then x.round(eps, rmax) is run: same shape, no rank grows, ranks <= rmax and <= exact rank, error <= eps||x|| unless capped, operand bitwise unchanged with consistent metadata.",
    note="As C01; conditioning of the gauges up to ~1e8.",
    technique="TLA+ truncation ledger, TLC invariants, behaviours realised as over-parameterised TTs and replayed into TT.round"),
+ "C10": dict(level=MC, design="§6 C10",
+   text="spec/Reshape.tla is a branch-by-branch transcription of the two-cursor merge/split walk of torchtt.reshape (tensor and operator branch) over shapes; TLC walks every (source, target) pair of a small scope and checks ShapeOK (emitted modes = requested), AllConsumed (no input core left behind: the sign/phase defect class), the SVD-split budget and termination; spec/Permute.tla (bubble sort with swap budget, all permutations) and spec/Qtt.tla (split/regroup arithmetic, round trip) likewise. Every walked case is executed on torchtt on random data (3 rank profiles, real/complex, eps default..1e-1) and compared with the dense reshape/permute: exact mode sizes, value within 3*eps, sign/phase, operand unchanged.",
+   note="Values are sampled (random cores); the truncation-error amplification of permute in non-orthogonal gauges is only sampled. The float math.log pitfall of to_qtt does not occur for mode_size 2 up to 2^39 (checked) and is outside the power-of-two scope for other bases.",
+   technique="TLA+ transcription of the reshape/permute/QTT control flow, TLC invariants, every walked case replayed into torchtt"),
 }
 
 NA = {}
